@@ -26,7 +26,7 @@ out.append("### 10.2 Independently seeded changes (`seeded/<id>/`)\n")
 rows=[]
 for d in sorted(glob.glob('/verif/seeded/*/meta.json')):
     mj=json.load(open(d))
-    rows.append(f"| {os.path.basename(os.path.dirname(d))} | {mj.get('property')} | {mj.get('needs','').replace('|','/')} | {mj.get('caught_by','')} | {mj.get('note','')} |")
+    rows.append(f"| {os.path.basename(os.path.dirname(d))} | {mj.get('property')} | {mj.get('needs','').replace('|','/')} | {mj.get('caught_by','')} | {(mj.get('history') or mj.get('note','')).replace('|','/')} |")
 if rows:
     out.append("Written by fresh sub-agents that saw only the property text and a scratch worktree; confirmed by me (compiles, baseline unchanged, demonstration fails with / passes without the change) before being run against the checks.\n")
     out.append("| Seed | Breaks | Needs to manifest | Caught by (quick) | Note |\n|---|---|---|---|---|")
